@@ -121,8 +121,8 @@ pub fn opaque_size_alignment() -> Layout {
 }
 
 pub fn unit_size_alignment() -> Layout {
-    // TODO: Is this correct?
-    Layout::new::<usize_target>()
+    // A `#[repr(C)]` struct without fields occupies no bytes and has alignment 1, like `()`.
+    Layout::from_size_align(0, 1).unwrap()
 }
 
 /// Get the [`Layout`] for a specific type.
